@@ -288,6 +288,12 @@ def r03k(F):
 		out.append(r)
 	return out
 
+def r03l(F):
+	"""after a restart an outbound payment is reported failed from chain data only once the closing transaction is buried: the restart-time
+	replay waits for the monitor's confirmation threshold (same rule as 02.f / 11.c)"""
+	import chainrules
+	return chainrules.restart_replay_guard(F, '03.l')
+
 RULES = [
 	('03.a', 'terminal events are constructed only at the frozen sites; claim/fail are entered only from the manager funnels', r03a),
 	('03.b', 'PaymentSent only when not yet fulfilled, then mark_fulfilled; hash = SHA256(same preimage)', r03b),
@@ -298,5 +304,6 @@ RULES = [
 	('03.h', 'an outbound HTLC is marked fulfilled only by a preimage that hashes to its payment hash, from Committed', r03h),
 	('03.i', 'paths handed to a channel (Ok / MonitorUpdateInProgress) stay in flight: classifier, path-failed events and sender agree', r03i),
 	('03.k', 'the payment-complete monitor release rides on the last (terminal) event pushed by fail_htlc', r03k),
+	('03.l', 'restart-time replay of on-chain failures waits for the confirmation threshold', r03l),
 	('03.j', 'failures / forwards / finalized claims parked behind a monitor update are all returned when it completes, at every exit', r03j),
 ]
